@@ -1436,6 +1436,10 @@ def f_isfinite(I, t):
 
 FUNCS["torch.isfinite"] = METHODS["isfinite"] = f_isfinite
 _c("isfinite: false exactly at the tracked +-inf entries")
+# isneginf / isposinf / isinf: the comparisons with the infinities they abbreviate
+FUNCS["torch.isneginf"] = METHODS["isneginf"] = lambda I, t: METHODS["eq"](I, t, -float("inf"))
+FUNCS["torch.isposinf"] = METHODS["isposinf"] = lambda I, t: METHODS["eq"](I, t, float("inf"))
+FUNCS["torch.isinf"] = METHODS["isinf"] = lambda I, t: CT.ew(sc_or, METHODS["eq"](I, t, -float("inf")), METHODS["eq"](I, t, float("inf")), dtype="bool")
 
 
 @method("matmul", "mm")
